@@ -109,6 +109,14 @@ def extract(nng, arch, res):
                                            "weight_off": int(wr.weight_offset), "weight_bytes": int(wr.weight_bytes)})
                 if wt is src:
                     add_init(wt)
+                # identification of the source constants for C08's artefact-level check (names and shape only; every
+                # address, length and byte is taken from the output file)
+                w["depth"] = [int(cmd.weight_box.start_coord[-1]), int(cmd.weight_box.end_coord[-1])]
+                if op.weights is not None:
+                    w["wname"] = op.weights.name
+                    w["wshape"] = [int(v) for v in op.weights.shape]
+                if op.bias is not None:
+                    w["bname"] = op.bias.name
                 d["weights"] = w
                 if cmd.scale_tensor is not None:
                     st = cmd.scale_tensor
